@@ -18,9 +18,11 @@ def mk(name, mx, ie, nmsg, rdmax=2):
 
 
 def mkredis(name, mx, ie, nmsg, reinit="new"):
-    """redis back-end over the in-process RESP fake; re-initialisation = a new Queue object on the same key (reinit=new, what a
-    restarted broker / the next connection does) or the same object; ladder rule 1 in its literal reading (any expired
-    in-flight entry), which is the one redis.go follows"""
+    """redis back-end over the in-process RESP fake; re-initialisation = a new Queue object on the same key (reinit=new), the
+    same object (reinit=same), or reinit=restart: the object is replaced right after every Close - the broker restarts while
+    the session is offline, server.New builds a Queue over the stored key and messages are added to it before any Init; the
+    model then generates only Add and Init after a Close.  Ladder rule 1 in its literal reading (any expired in-flight
+    entry), which is the one redis.go follows"""
     c = mk(name, mx, ie, nmsg)
     c.update(target="redis", reinit=reinit, rule1="any")
     return c
@@ -52,7 +54,7 @@ def plan(tier, seed):
         n3, ie3 = SMALL3[seed % len(SMALL3)]
         tc.append(mk(n3, 3, ie3, 4))
         rn, rie = REDIS_QUICK[seed % len(REDIS_QUICK)]
-        tc.append(mkredis(rn, 2, rie, 3))
+        tc.append(mkredis(rn, 2, rie, 3, reinit=["new", "restart", "same"][seed % 3]))
         design = [mk(names[seed % len(names)], 2, ies[seed % 3], 3)]      # 3 messages: ~10^5 transitions
         return design, tc
     tc, design = [], []
@@ -77,6 +79,9 @@ def plan(tier, seed):
     for ie in ies:
         tc.append(mkredis("expiry0", 2, ie, 4))
         tc.append(mkredis("rel", 2, ie, 4))
+        tc.append(mkredis("rel", 2, ie, 3, reinit="restart"))
+    tc.append(mkredis("expiry0", 2, "instant", 4, reinit="restart"))
+    tc.append(mkredis(names[seed % len(names)], 2, ies[(seed + 1) % 3], 3, reinit="restart"))
     design.append(dict(mk(names[(seed + 2) % len(names)], 2, "instant", 4), rule1="any"))
     return design, tc
 
